@@ -151,6 +151,8 @@ def uses_loop(x, k):
 
 import math  # noqa: E402
 
+import numpy as np  # noqa: E402
+
 
 def exp_law(x, k):
     return k * math.exp(-x)
@@ -207,3 +209,19 @@ def hill_helper(s, vmax, km=1.0, n=2.0):
 
 def calls_with_partial_defaults(s, vmax, km):
     return hill_helper(s, vmax, km)
+
+
+def sign_law(s, p, k):
+    return k * np.sign(s - p)
+
+
+def npexp_law(x, k):
+    return k * np.exp(-x)
+
+
+def npsqrt_law(x, k):
+    return k * np.sqrt(x)
+
+
+def floor_law(x, k):
+    return k * math.floor(x)
